@@ -19,6 +19,8 @@ def build_formula(logic, f, mode):
 
 
 def project_result(out, index_of):
+    if out[0] == 'timeout':
+        return {'skipped': 'timeout'}
     if out[0] == 'exc':
         return {'exc': out[1], 'msg': out[2]}
     r = out[1]
@@ -39,6 +41,32 @@ def project_result(out, index_of):
     return {'ret': sorted(ret), 'isset': isset, 'foreign': foreign}
 
 
+class CaseTimeout(BaseException):
+    pass
+
+
+def _alarm(signum, frame):
+    raise CaseTimeout()
+
+
+def with_time_limit(fn, seconds):
+    """run fn() under a wall-clock limit (the tableau-based checkers are exponential in the number
+    of temporal operators); returns ('timeout',) when the limit is hit"""
+    import signal
+    old = signal.signal(signal.SIGALRM, _alarm)
+    signal.setitimer(signal.ITIMER_REAL, seconds)
+    try:
+        return fn()
+    except CaseTimeout:
+        return ('timeout',)
+    finally:
+        signal.setitimer(signal.ITIMER_REAL, 0)
+        signal.signal(signal.SIGALRM, old)
+
+
+CASE_LIMIT_S = 20.0
+
+
 def mc_event(case):
     """case: {tid, logic, K, f, mode, naming, shuf (int|None), cert (int|None), F (list|None)}"""
     rng = random.Random(case['shuf']) if case.get('shuf') is not None else None
@@ -51,7 +79,7 @@ def mc_event(case):
     else:
         F = case.get('F')
         Fa = None if F is None else [set(name(i) for i in P) for P in F]
-        out = call_mc(case['logic'], k, formula, F=Fa)
+        out = with_time_limit(lambda: call_mc(case['logic'], k, formula, F=Fa), case.get('limit', CASE_LIMIT_S))
     ev = {'tid': case['tid'], 'logic': case['logic'], 'n': K['n'], 'R': K['R'], 'L': K['L'],
           'f': case['f'], 'out': project_result(out, index_of)}
     if case.get('cert'):
@@ -94,6 +122,10 @@ def run_cases(ctx, cases, module='TraceSem.tla', cfg='Trace.cfg', family='', nsh
         if k:
             ctx.nontrivial.add(k)
     ctx.evaluations += len(events)
+    nskip = sum(1 for ev in events if 'skipped' in ev['out'])
+    if nskip:
+        ctx.count('skipped_timeouts', nskip)
+        ctx.log('%d of %d cases hit the per-case time limit and are recorded as skipped (never as passed)' % (nskip, len(events)))
     if family:
         ctx.count('cases_' + family, len(events))
     seen = set()
@@ -102,6 +134,11 @@ def run_cases(ctx, cases, module='TraceSem.tla', cfg='Trace.cfg', family='', nsh
         if fam not in seen:
             seen.add(fam)
             ctx.sample({'family': fam, 'event': ev}, limit=12)
+    import os
+    if os.environ.get('PYMC_VERIF_DUMP'):
+        with open(os.environ['PYMC_VERIF_DUMP'], 'a') as fh:
+            for ev in events:
+                fh.write(json.dumps(ev) + '\n')
     verdicts = ctx.validate(module, cfg, events, nshards=nshards)
     out = []
     for tid, v in sorted(verdicts.items()):
